@@ -1,5 +1,5 @@
 //verif:package github.com/kstenerud/go-concise-encoding/internal/verifh/c07
-//verif:config cap=300 paths=600000
+//verif:config cap=300 paths=600000 maxsec=1800
 //verif:bounds CBE / universal byte-level entry points on documents of 0..4 fully symbolic bytes (quick) / 0..5 (thorough), with rules on and off; structured 6..8 byte documents (signature, version, symbolic type bytes and length fields)
 //verif:assume template types and marshaling of unsupported kinds go through reflection (outside reach); the CTE parser proper (ANTLR) is outside reach; "never blocks" is checked as a step budget per path
 package c07
